@@ -1,7 +1,7 @@
 (* Extraction of the executable model to OCaml.  ExtrOcamlBasic only (bool, option, unit,
    list, prod, sumbool, sumor); no Extract Constant; nat, N, Z, positive stay Coq datatypes. *)
 From Coq Require Import ExtrOcamlBasic.
-From RV.Model Require Import Base I32 Imm Lexer Isa Parser Reader Cfg Avail Live Lints Serde.
+From RV.Model Require Import Base I32 Imm Lexer Isa Parser Reader Cfg Avail Live Lints Serde Output Printer.
 From RV.Spec Require Import LitSpec.
 From RV.Spec Require FoldSpec.
 
@@ -16,4 +16,4 @@ Definition spec_op (o : mathop) : FoldSpec.op :=
 Definition spec_eval (o : mathop) (x y : Z) : Z := FoldSpec.eval (spec_op o) x y.
 Extraction Language OCaml.
 Extraction "rvmodel.ml"
-  operate all_mathops imm_from_str csrimm_from_str lui_imm wrap32 to_u32 lit_value spec_eval lex_all parse_from_file dir_names inst_name gen_cfg_upto run_items cfg_error_loc lint_title lint_severity lint_description lint_name all_lintcodes parse_error_title cfg_error_title ser_graph gen_full_cfg.
+  operate all_mathops imm_from_str csrimm_from_str lui_imm wrap32 to_u32 lit_value spec_eval lex_all parse_from_file dir_names inst_name gen_cfg_upto run_items cfg_error_loc lint_title lint_severity lint_description lint_name all_lintcodes parse_error_title cfg_error_title ser_graph gen_full_cfg display_pretty format_region fields.
